@@ -287,7 +287,13 @@ def run_case(h: Harness, case, tmp: str, n: int):
                 recorder.register(tracker, ind, problem, is_best=best)
                 flag = best
             else:
-                tracker.evaluate([ind])
+                # the batch arrives as a list, a generator or an iterator, in rotation (the signature says Iterable[Individual])
+                tracker.evaluate([[ind], (x for x in [ind]), iter([ind]), (ind,)][(j + n) % 4])
+                if len(spy.log) != j + 1:
+                    h.fail("ProgressTracker.evaluate", "register-not-called-once",
+                           f"{describe(case, j + 1)}: the tracker called register {len(spy.log)} times after {j + 1} evaluations (batch given as "
+                           f"{['a list', 'a generator', 'an iterator', 'a tuple'][(j + n) % 4]})", case)
+                    break
                 flag = spy.log[-1][1]
                 if len(spy.log) != j + 1 or spy.log[-1][0] is not ind:
                     h.fail("ProgressTracker.evaluate", "register-not-called-once",
